@@ -32,7 +32,11 @@ ASSUMPTIONS = [
 ]
 MAX_ABSTAIN = 0.6  # discarded functions are counted per function, evaluations per node check
 
-BENIGN = {"unused_variable", "unused_assignment"}
+# Lints that do not make the function ill-typed.  The "verdict" codes (impossible_pattern,
+# type_always_true, unsafe_comparison) are claims the execution can contradict: the function stays
+# in, and a value reaching a branch inferred Never is reported as usual.
+BENIGN = {"unused_variable", "unused_assignment", "impossible_pattern", "type_always_true", "value_always_true",
+          "unsafe_comparison", "missing_return", "possibly_undefined_name"}
 SCRIPTS = [(), (1,), (0, 1, 1)]
 
 
